@@ -21,6 +21,7 @@ class Sim:
         self.world = S.build_world(self.spec, salt) if build else None
         self.n_updates = 0
         self.expect = None
+        self.replaced = {}
 
     # -- helpers ---------------------------------------------------------------------------------
     def obj(self, name):
@@ -93,10 +94,24 @@ class Sim:
         return fn(op)
 
     def op_set(self, op):
-        """Single assignment obj.attr = value (quantity, categorical, hourly, link or list)."""
+        """Single assignment obj.attr = value (quantity, categorical, hourly, link or list).
+        With "reuse": true the very object that this attribute held before its last assignment is assigned again
+        (upstream's own change-and-revert idiom) instead of a fresh object of equal value."""
         o = self.obj(op["obj"])
-        new = self._new_for(op)
-        setattr(o, op["attr"], new)
+        key = (op["obj"], op["attr"])
+        new = None
+        if op.get("reuse"):
+            new = self.replaced.get(key)
+        if new is None:
+            new = self._new_for(op)
+        old = o.__dict__.get(op["attr"])
+        try:
+            setattr(o, op["attr"], new)
+        finally:
+            if (o.__dict__.get(op["attr"]) is not old and op["value"][0] in ("q", "s", "tz", "h", "e", "none")
+                    and not op.get("revert")):
+                # (a revert that fails must not make its own failed value the "previous" one)
+                self.replaced[key] = old
         self._mirror(op)
 
     def op_group(self, op):
